@@ -58,4 +58,18 @@ func init() {
 		Explanation: "wiring",
 		NotCovered: "values",
 	})
+
+	registerRule(&RuleDef{ID: "A1", Min: 20, Doc: "fresh-out", Run: ruleA1})
+	registerRule(&RuleDef{ID: "A1p", Min: 2, Doc: "RowsShallow callers", Run: ruleA1p})
+	registerRule(&RuleDef{ID: "A2", Min: 2, Doc: "fresh-in", Run: ruleA2})
+	registerRule(&RuleDef{ID: "A3", Min: 5, Doc: "owned in-place args", Run: ruleA3})
+	registerRule(&RuleDef{ID: "A4", Min: 4, Doc: "who may write committed state", Run: ruleA4})
+	registerRule(&RuleDef{ID: "A5", Min: 10, Doc: "no dropped error on commit path", Run: ruleA5})
+	registerRule(&RuleDef{ID: "T-SCAN", Min: 2, Doc: "error scan before notify/commit", Run: ruleTSCAN})
+	registerProp(&PropDef{
+		ID:    "C13",
+		Rules: []string{"A1", "A1p", "A2", "A3", "A4", "A5", "T-SCAN"},
+		Explanation: "aliasing",
+		NotCovered: "values",
+	})
 }
